@@ -4,4 +4,5 @@ CONSTANTS
   MaxLines = 3
   EmitMod = 12
   Mode = "gen"
+  WithErr = FALSE
 INVARIANTS EmitGen
